@@ -99,8 +99,12 @@ TEXT = {
           "successful insert enumerates the old elements plus the new one and a successful remove the old elements minus one with the "
           "key asked for (C20_hset_insert_perm_any - also when the table grows: extend_perm, every element finds a free slot of the doubled table - and "
           "C20_hset_remove_perm; unsuccessful calls change nothing; the slot array is non-empty in every reachable state, "
-          "C20_hset_reachable_size). That every stored element is "
-          "reachable by its probe sequence (the probe-chain invariant) is not proved (correspondence only).",
+          "C20_hset_reachable_size). The probe-chain "
+          "invariant (every stored element sits at an offset from its home slot with no empty slot on the way) makes every stored key "
+          "reachable (contains_complete) and is kept by insert and by the re-hash of the growth (pc_fill, insert_pc, extend_pc); with the "
+          "load-factor bookkeeping (insert_good: there is always a free slot, so every probe answers) membership after any history of "
+          "insertions is exactly 'a polynomial with this key was inserted' (C20_hset_insert_only_partial). PARTIAL: that the backward "
+          "shift of a removal keeps the probe-chain invariant is not proved (histories with removals: correspondence only).",
   "design_ref": "5.20",
   "note": "proof covers the reference semantics, the heap mirror (multiset and heap order for every history) and basic lemmas of the table mirror; the refinement mirror -> reference is checked per history (20k histories per quick run with forced collisions, wrap-around, growth), not proved; elements abstracted to (identity, reported hash)",
   "technique": "Lean 4 proved reference semantics + slot-exact mirror model + history-based differential correspondence",
